@@ -495,7 +495,7 @@ func DateRangeFunc(query *Query, current Map, functionOptions *FunctionOptions, 
 		from = fmt.Sprintf("%v", args[0])
 	}
 	if args[1] != nil {
-		from = fmt.Sprintf("%v", args[1])
+		to = fmt.Sprintf("%v", args[1])
 	}
 	return []string{from, to}, nil
 }
